@@ -119,7 +119,10 @@ func c20SubNodeOpts(o *c20Op) []compose.GraphAddNodeOpt {
 func c20WfAddIns(n *compose.WorkflowNode, ins []c20WfIn) {
 	for _, in := range ins {
 		var fm []*compose.FieldMapping
-		if in.Mapped {
+		if in.Fid > 0 {
+			// key "k" is what every map-typed lambda of the menu returns (c20Val) and what the run input carries
+			fm = append(fm, compose.MapFields("k", fmt.Sprintf("k%d", in.Fid)))
+		} else if in.Mapped {
 			fm = append(fm, compose.MapFields("X", "X"))
 		}
 		switch in.Kind {
@@ -479,6 +482,10 @@ func c20DOne(ctx *vh.Ctx, c *c20DCase, repeats int) error {
 		ctx.Res.Dist("compiled")
 	}
 	ctx.Res.Sample(c)
+	if strings.HasPrefix(c.Shape, "dupkind") {
+		// one (predecessor, node) pair declared several times: an accepted Workflow is also run (c20_dup.go)
+		c20DupRunCheck(ctx, c, m, obs)
+	}
 	if d != nil {
 		ctx.Res.Disagree(vh.Disagreement{Signature: d.sig, What: d.what, Case: c, Model: m, Impl: obs})
 	}
